@@ -225,6 +225,14 @@ func oracles(o *corr.Out, sc *scenario, w *World) {
 			}
 		}
 	}
+	// (1c') C07: a finished stream hands nothing more to the transport (theorem finished_emits_nothing)
+	w.lateMu.Lock()
+	if len(w.Late) > 0 {
+		o.Oracle("C07:no-write-after-finished", sc.request(), fmt.Sprintf("transport Write(%s) started after Finished() was closed", strings.Join(w.Late, ",")))
+	} else {
+		o.OracleOK("C07:no-write-after-finished")
+	}
+	w.lateMu.Unlock()
 	// (1d) C01: what MsgRecv returns are the message payloads that were delivered, unaltered and in order
 	{
 		var payloads, got []string
